@@ -43,6 +43,17 @@ Input classes beyond the random histories
                  (vertex axis of polygons; endpoint / row axis of segments and
                  tangent vectors with keys that keep both rows) (seeded change
                  C11-r4-2).
+  null rows      exactly-null ideal rows (Pythagorean null vectors) in the
+                 primary data of segments / polygons / tangent vectors
+                 (special classes 9..11) and of ideal points / geodesics in
+                 the query workload: the write watch sees a row replaced by
+                 the zero vector as a moved point (seeded change C11-r5-1).
+  identity-maps  apply by EXACT identities (module identity, rep[''],
+                 standard_rotation(0.), A @ A^-1, composite and integer
+                 identities) and other operations that may hand back the
+                 source's buffers, followed by item assignments; every live
+                 relative must keep its primary data and coherent derived
+                 data (seeded change C11-r5-2).
 """
 import copy
 import os
@@ -88,6 +99,11 @@ ASSUMPTIONS = [
     "a recomputation type(obj)(obj.proj_data).aux_data that is not finite although the "
     "stored derived data is finite, for separated interior endpoints (segments) or an "
     "interior base point (tangent vectors), is a stored-vs-recomputed mismatch",
+    "an operation other than copy.copy returns an object that owns its data: editing the "
+    "result by item assignment neither moves nor de-synchronises any object it was "
+    "derived from (also when the operation is geometrically the identity)",
+    "an exactly null row (ideal endpoint / vertex) is a legitimate point: a query may "
+    "leave it unnormalised but must not replace it by another vector (0 included)",
     "a positive rescaling of a homogeneous representative (1e-9 .. 1e9 per row) does "
     "not change the object: the base point of a tangent vector, the endpoints of a "
     "segment and the vertices of a polygon are rescaled, never the tangent vector row",
@@ -583,7 +599,43 @@ OPS = ["copy", "deepcopy", "class-copy", "apply", "apply-composite", "apply-pair
        "combine", "astype32", "astype64", "query"]
 # further operations, driven by the targeted workloads (not in the random draw
 # of wl_history, whose case stream stays what it was)
-EXTRA_OPS = ["flatten-unit", "flatten-aux", "query-normalising", "apply-given", "setitem-unit"]
+EXTRA_OPS = ["flatten-unit", "flatten-aux", "query-normalising", "apply-given", "setitem-unit",
+             "apply-identity", "same-astype", "same-reshape", "full-index"]
+IDENTITIES = ["module-identity", "rep-empty-word", "rotation-by-0", "A@A.inv", "composite-identity",
+              "integer-identity", "matmul-module-identity"]
+
+
+def identity_map(rng, kind, n, shape, which):
+    """a transformation that is geometrically the identity, in the ways a user
+    gets one: every matrix exactly np.eye except (possibly) A @ A.inv()."""
+    from geometry_tools import projective as P, hyperbolic as H
+    hyp = G.KINDS[kind][1]
+    name = IDENTITIES[which % len(IDENTITIES)]
+    eye = np.eye(n + 1)
+    if name in ("module-identity", "matmul-module-identity"):
+        T = H.identity(n) if hyp else P.identity(n)
+    elif name == "rep-empty-word":
+        rep = H.HyperbolicRepresentation() if hyp else P.ProjectiveRepresentation()
+        tk = "H.Isometry" if hyp else "P.Transformation"
+        rep["a"] = G.build(tk, G.draw(rng, tk, n, ()))
+        T = rep[""]
+    elif name == "rotation-by-0":
+        T = H.Isometry.standard_rotation(0.0, dimension=n) if hyp else P.Transformation(eye)
+    elif name == "A@A.inv":
+        if hyp:
+            A = H.Isometry(SP.exact_boost(n, 1 + int(rng.integers(0, n)),
+                                          int(rng.choice([1, 2, -1])))[0], column_vectors=True)
+        else:
+            A = P.Transformation(np.diag(2.0 ** rng.integers(-2, 3, size=n + 1)))
+        T = A @ A.inv()
+    elif name == "composite-identity":
+        tshape = tuple(shape[-1:])
+        M = np.broadcast_to(eye, tshape + eye.shape).copy()
+        T = H.Isometry(M) if hyp else P.Transformation(M)
+    else:
+        M = np.eye(n + 1, dtype=np.int64)
+        T = H.Isometry(M) if hyp else P.Transformation(M)
+    return T, name
 
 
 class Model:
@@ -759,8 +811,30 @@ def relatives_check(run, relatives, step, opname):
     their descendant is edited: buffers shared between relatives (seeded change
     C11-1: item assignment writing the recomputed aux data into the old buffer)
     show up as a relative whose aux_data no longer follows its own proj_data."""
+    hist = run.monitor("history")
     for r in relatives:
-        if r in _reported or r in _not_comparable:
+        r, mr = r if isinstance(r, tuple) else (r, None)
+        if r in _reported:
+            continue
+        if mr is not None:
+            # ... and must not move: the model of the history at the time the
+            # relative was the current object is what it still has to carry
+            # (seeded change C11-r5-2: apply by an exact identity returns the
+            # shallow copy, so item assignment on the image writes into the source)
+            pd = np.asarray(r.proj_data)
+            if pd.dtype.kind in "biuf" and mr.prim.dtype.kind in "biuf":
+                if mr.kind == "H.TangentVector":
+                    dev = rp.tangent_dev(pd, mr.prim)
+                else:
+                    dev = rp.max_row_dev(pd, mr.prim)
+                if not hist.judge(dev, 1e-4 if mr.lowprec else 1e-8,
+                                  "history/relative-moved/%s/after:%s" % (mr.kind, opname),
+                                  "after %s on a derived object, an object it was derived from "
+                                  "no longer carries its own primary data" % opname,
+                                  {"history": _state.get("history"), "step": step}):
+                    _reported.add(r)
+                    continue
+        if r in _not_comparable:
             continue
         _state["check"](r, "relative-after:" + opname)
 
@@ -950,6 +1024,26 @@ def apply_step(run, rng, op, obj, model, step):
         m2 = copy.copy(model)
         m2.prim = model.prim.reshape((-1,) + model.prim.shape[rank - k:])
         return new, m2, "ok"
+    if op == "apply-identity":
+        # the model: nothing changes -- and the image owns its data, like the
+        # image under any other map (seeded change C11-r5-2)
+        base = _state.get("ident")
+        which = int(rng.integers(0, 70)) if base is None else base + step
+        T, name = identity_map(rng, kind, n, shape, which)
+        if isinstance(_state.get("history"), dict):
+            _state["history"].setdefault("identities", []).append(name)
+        new = (T @ obj) if name.startswith("matmul") else T.apply(obj)
+        return new, copy.copy(model), "ok"
+    if op in ("same-astype", "same-reshape", "full-index"):
+        # further operations that are the identity on the data and could hand
+        # back the source's buffers (same-dtype astype: seeded change C11-r5-3)
+        if op == "same-astype":
+            new = obj.astype(np.asarray(obj.proj_data).dtype)
+        elif op == "same-reshape":
+            new = obj.reshape(tuple(shape))
+        else:
+            new = obj[...] if step % 2 else obj[(slice(None),) * len(shape)] if shape else obj[...]
+        return new, copy.copy(model), "ok"
     if op == "apply-given":
         # one given isometry (column convention), e.g. the exact boost that moves
         # an endpoint / vertex / base point of every unit onto the origin
@@ -1172,7 +1266,7 @@ def wl_history(run, rng, idx):
     done = []
     relatives = []
     for step, op in enumerate(ops):
-        prev = obj
+        prev, prev_model = obj, model
         obj, model, status = apply_step(run, rng, op, obj, model, step)
         if status.startswith("skip"):
             run.monitor("history").skip(status[5:])
@@ -1184,7 +1278,7 @@ def wl_history(run, rng, idx):
             if op == "copy":
                 relatives = []          # shallow copies share arrays by definition
             else:
-                relatives.append(prev)
+                relatives.append((prev, prev_model))
         if not explicit_check(run, obj, model, step, op):
             break
         relatives_check(run, relatives[-4:], step, op)
@@ -1245,7 +1339,7 @@ def run_history(run, rng, kind, n, shape, route, ops, lift=None, note=()):
     if explicit_check(run, obj, model, -1, "construct:" + route):
         relatives = []
         for step, op in enumerate(ops):
-            prev = obj
+            prev, prev_model = obj, model
             obj, model, status = apply_step(run, rng, op, obj, model, step)
             if status.startswith("skip"):
                 run.monitor("history").skip(status[5:])
@@ -1254,10 +1348,10 @@ def run_history(run, rng, kind, n, shape, route, ops, lift=None, note=()):
                 break
             done.append(op)
             if obj is not prev:
-                relatives = [] if op == "copy" else relatives + [prev]
+                relatives = [] if op == "copy" else relatives + [(prev, prev_model)]
             if not explicit_check(run, obj, model, step, op):
                 break
-            relatives_check(run, relatives[-3:], step, op)
+            relatives_check(run, relatives[-(_state.get("keep_relatives") or 3):], step, op)
     pm = run.monitor("query-purity")
     for k in raw:
         pm.require(np.array_equal(raw[k], raw0[k]), "query-purity/construction-array-changed",
@@ -1362,6 +1456,11 @@ def wl_special_positions(run, rng, idx):
         [SP_OPS[(idx // 3) % len(SP_OPS)], "query", SP_OPS[int(rng.integers(0, len(SP_OPS)))]]
     if c == 8:
         ops.append("apply")
+    if c in SP.NULL_CLASSES:
+        # exactly-null rows: the in-place normalising queries first, and again
+        # at the end (seeded change C11-r5-1: normalize overwrites them with 0)
+        ops = ["query-normalising"] + ops + ["query-normalising"]
+        _state["nquery"] = idx // 3
     _state["history"] = {"kind": kind, "dimension": n, "shape": list(shape), "route": route,
                          "ops": ops, "special-class": c, "boost": spec}
     _state["special"] = {"class": c, "boost": spec}
@@ -1372,6 +1471,7 @@ def wl_special_positions(run, rng, idx):
     finally:
         _state["special"] = None
         _state["given_M"] = None
+        _state.pop("nquery", None)
         _state["history"] = None
 
 
@@ -1394,6 +1494,39 @@ def wl_setitem_unit(run, rng, idx):
         run_history(run, rng, kind, n, shape, route, ops, note=("setitem-unit",))
     finally:
         _state.pop("ukey", None)
+        _state["history"] = None
+
+
+ID_OPS = ["apply-identity", "same-astype", "same-reshape", "full-index", "apply-identity"]
+ID_EDITS = ["setitem", "setitem-raw", "setitem-unit"]
+ID_PRE = ["class-copy", "apply", "reshape", "stack", "deepcopy", "index", "astype64", "flatten"]
+
+
+def wl_identity_maps(run, rng, idx):
+    """histories [op] -> identity-like operation -> item assignment on the result
+    -> queries -> identity-like operation -> item assignment: all live relatives
+    (the source of every operation included) keep their primary data and coherent
+    derived data (seeded change C11-r5-2: Transformation.apply returns the
+    shallow copy when the matrix is exactly the identity)."""
+    kind = HKINDS[idx % len(HKINDS)]
+    shape = [(3,), (2, 3), (), (4,), (1, 3)][(idx // 4) % 5]
+    n = 2 + (idx // 20) % 3
+    route = ROUTES[(idx // 3) % len(ROUTES)]
+    first = ID_OPS[(idx // 4) % len(ID_OPS)]
+    pre = [ID_PRE[int(rng.integers(0, len(ID_PRE)))]] if idx % 3 == 2 else []
+    ops = pre + [first, ID_EDITS[(idx // 4 + idx // 12) % len(ID_EDITS)], "query",
+                 ID_OPS[int(rng.integers(0, len(ID_OPS)))],
+                 ID_EDITS[int(rng.integers(0, len(ID_EDITS)))]]
+    _state["history"] = {"kind": kind, "dimension": n, "shape": list(shape), "route": route,
+                         "ops": ops}
+    _state["ident"] = idx // 4 + idx // 28
+    _state["keep_relatives"] = 6
+    run.current_case = _state["history"]
+    try:
+        run_history(run, rng, kind, n, shape, route, ops, note=("identity-maps",))
+    finally:
+        _state.pop("ident", None)
+        _state.pop("keep_relatives", None)
         _state["history"] = None
 
 
@@ -1474,12 +1607,25 @@ def wl_queries(run, rng, idx):
         # hostile class: negative representatives (per unit row)
         for k in raw:
             raw[k] = raw[k] * rng.choice([-1.0, 1.0], size=raw[k].shape[:-1] + (1,))
-    _state["history"] = {"kind": kind, "dimension": n, "shape": list(shape), "ops": ["queries"]}
+    exact_null = kind in ("H.IdealPoint", "H.Geodesic") and (idx // len(kinds)) % 3 == 2
+    if exact_null:
+        # hostile class: ideal rows of Minkowski norm EXACTLY 0.0 (seeded change
+        # C11-r5-1: an in-place normalisation that zeroes such rows)
+        for ix in np.ndindex(*shape):
+            if kind == "H.IdealPoint":
+                raw["X"][ix] = SP.null_vector(rng, n)
+            else:
+                raw["P"][ix], raw["Q"][ix] = SP.distinct_null_vectors(rng, n, 2)
+    _state["history"] = {"kind": kind, "dimension": n, "shape": list(shape), "ops": ["queries"],
+                         "exactly-null": bool(exact_null)}
     run.current_case = dict(_state["history"], raw=raw)
     X = G.build(kind, raw)
     mon = run.monitor("query-purity")
     klein0 = None
     with np.errstate(all="ignore"):
+        if exact_null:
+            X.hyperboloid_coords()
+            X.coords("hyperboloid")
         if kind in ("H.Point", "H.IdealPoint", "H.DualPoint"):
             for m in ("projective", "klein"):
                 X.coords(m)
@@ -1549,12 +1695,13 @@ def wl_queries(run, rng, idx):
 
 
 WORKLOADS = [
-    Workload("history", wl_history, quick=600, thorough=16000),
+    Workload("history", wl_history, quick=500, thorough=16000),
     Workload("setitem-combine", wl_setitem_combine, quick=200, thorough=3000),
     Workload("queries", wl_queries, quick=190, thorough=2850),
     Workload("integer-primary", wl_integer_primary, quick=48, thorough=960),
-    Workload("flatten-unit", wl_flatten_unit, quick=80, thorough=1920),
-    Workload("lift-scales", wl_lift_scales, quick=72, thorough=2304),
-    Workload("special-positions", wl_special_positions, quick=54, thorough=1296),
-    Workload("setitem-unit", wl_setitem_unit, quick=64, thorough=1536),
+    Workload("flatten-unit", wl_flatten_unit, quick=72, thorough=1920),
+    Workload("lift-scales", wl_lift_scales, quick=60, thorough=2304),
+    Workload("special-positions", wl_special_positions, quick=72, thorough=1728),
+    Workload("setitem-unit", wl_setitem_unit, quick=56, thorough=1536),
+    Workload("identity-maps", wl_identity_maps, quick=60, thorough=1680),
 ]
